@@ -588,7 +588,11 @@ func runC04(r *rep.Report, thorough bool) error {
 			in := map[string]any{"case": ln.Case, "table": ln.Type, "column": col, "document": raw, "sources": a.Case.Sources()}
 			r.Case(map[string]any{"case": ln.Case, "column": ln.Type + "." + col, "doc": raw}, strings.ContainsAny(raw, "[{"))
 			if res[0] != "true" && res[0] != "null" {
-				r.Fail(rep.Failure{Signature: "c04:go-document-rejected" + c04Shape(a, ft, decl), What: "the CHECK constraint of a jsonb column evaluates to " + res[0] + " on a document Go emits for the column's type", Input: in, Observed: res[0]})
+				shape := c04Shape(a, ft, decl)
+				if shape == "" && strings.Contains(raw, `"Data":null`) {
+					shape = ":nil-container-member-of-union"
+				}
+				r.Fail(rep.Failure{Signature: "c04:go-document-rejected" + shape, What: "the CHECK constraint of a jsonb column evaluates to " + res[0] + " on a document Go emits for the column's type", Input: in, Observed: res[0]})
 			}
 			// the same documents through the *real* script, when its validators are instances of
 			// the templates (recognised, and printed back by the model to the real text)
